@@ -71,29 +71,40 @@ type lsEnv struct {
 type lsPos struct{ ep, off int }
 
 type lsState struct {
-	fresh  bool // mark == cur (kept in step by sync)
-	cur    lsPos
-	mark   lsPos
-	poss   map[types.Object]lsPos // token.Pos locals
-	alias  map[types.Object]bool  // local slices that alias the line table
-	nextEp int
-	bools  map[types.Object]bool
-	ints   map[types.Object]int64
-	breaks int
-	sinks  []string
-	advs   int  // cursor advanced by the length of the decoration
-	inner  int  // loops over the decoration text that record line starts inside it
-	done   bool // returned
-	cont   bool // continue in the decoration loop
-	ret    *int64
+	fresh bool // mark == cur (kept in step by sync)
+	cur   lsPos
+	mark  lsPos
+	poss  map[types.Object]lsPos // token.Pos locals
+	offs  map[types.Object]lsPos // int locals that hold a file offset: the position it stands for
+	// cend: where the content restored last (a node, or a comment of this list) ends. A "\n"
+	// decoration that records its line start exactly there puts the End() of that content on the
+	// next line; atEnd counts such line starts in the current step, unkStart the line starts whose
+	// offset could not be related to the cursor.
+	cend     lsPos
+	atEnd    int
+	unkStart int
+	alias    map[types.Object]bool // local slices that alias the line table
+	nextEp   int
+	bools    map[types.Object]bool
+	ints     map[types.Object]int64
+	breaks   int
+	sinks    []string
+	advs     int  // cursor advanced by the length of the decoration
+	inner    int  // loops over the decoration text that record line starts inside it
+	done     bool // returned
+	cont     bool // continue in the decoration loop
+	ret      *int64
 	// classification helpers: return value wanted
 	retWanted, retSet bool
 }
 
 func (s *lsState) clone() *lsState {
-	n := &lsState{fresh: s.fresh, cur: s.cur, mark: s.mark, nextEp: s.nextEp, poss: map[types.Object]lsPos{}, alias: map[types.Object]bool{}, bools: map[types.Object]bool{}, ints: map[types.Object]int64{}, breaks: s.breaks, done: s.done, cont: s.cont, advs: s.advs, inner: s.inner}
+	n := &lsState{fresh: s.fresh, cur: s.cur, mark: s.mark, cend: s.cend, atEnd: s.atEnd, unkStart: s.unkStart, offs: map[types.Object]lsPos{}, nextEp: s.nextEp, poss: map[types.Object]lsPos{}, alias: map[types.Object]bool{}, bools: map[types.Object]bool{}, ints: map[types.Object]int64{}, breaks: s.breaks, done: s.done, cont: s.cont, advs: s.advs, inner: s.inner}
 	for k, v := range s.poss {
 		n.poss[k] = v
+	}
+	for k, v := range s.offs {
+		n.offs[k] = v
 	}
 	for k, v := range s.alias {
 		n.alias[k] = v
@@ -109,8 +120,13 @@ func (s *lsState) clone() *lsState {
 }
 
 func newLsState(fresh bool) *lsState {
-	s := &lsState{bools: map[types.Object]bool{}, ints: map[types.Object]int64{}, poss: map[types.Object]lsPos{}, alias: map[types.Object]bool{}}
+	s := &lsState{bools: map[types.Object]bool{}, ints: map[types.Object]int64{}, poss: map[types.Object]lsPos{}, offs: map[types.Object]lsPos{}, alias: map[types.Object]bool{}}
 	s.setFresh(fresh)
+	// on a fresh line nothing ends at the cursor; otherwise the node restored last may end there
+	s.cend = lsPos{-3, 0}
+	if !fresh {
+		s.cend = s.cur
+	}
 	return s
 }
 
@@ -133,6 +149,14 @@ func (s *lsState) sync() { s.fresh = s.mark == s.cur }
 func (s *lsState) rebase(drop func(types.Object) bool) {
 	old := s.cur
 	fresh := s.mark == s.cur
+	atCend := s.cend == s.cur
+	s.offs = map[types.Object]lsPos{}
+	defer func() {
+		s.cend = lsPos{-3, 0}
+		if atCend {
+			s.cend = s.cur
+		}
+	}()
 	for o, p := range s.poss {
 		if drop(o) {
 			delete(s.poss, o)
@@ -157,7 +181,7 @@ func (s *lsState) key() string {
 		parts = append(parts, fmt.Sprintf("%s@%d=%v", k.Name(), k.Pos(), v))
 	}
 	sort.Strings(parts)
-	return fmt.Sprintf("fresh=%v %s", s.fresh, strings.Join(parts, " "))
+	return fmt.Sprintf("fresh=%v at-content-end=%v %s", s.fresh, s.cend == s.cur, strings.Join(parts, " "))
 }
 
 type lsEval struct {
@@ -287,6 +311,10 @@ func (v *lsEval) textLoop(s *lsState, n ast.Node) {
 	switch v.env.class {
 	case clsNL:
 		s.breaks++
+		if s.cur == s.cend {
+			// the text is emitted at the cursor: its line break starts the new line there
+			s.atEnd++
+		}
 	case clsLine, clsInline:
 	default:
 		s.inner++
@@ -547,6 +575,89 @@ func (v *lsEval) posVal(s *lsState, x ast.Expr) (lsPos, bool) {
 	return lsPos{}, false
 }
 
+// offPos: the position a file offset stands for — a sum with one cursor-derived position
+// (converted to int) or one offset local, r.base subtracted, and integer constants.
+func (v *lsEval) offPos(s *lsState, x ast.Expr) (lsPos, bool) {
+	var p lsPos
+	nPos, nBase, k, ok := 0, 0, 0, true
+	var flat func(e ast.Expr, neg bool)
+	flat = func(e ast.Expr, neg bool) {
+		e = ast.Unparen(e)
+		if be, isBin := e.(*ast.BinaryExpr); isBin && (be.Op == token.ADD || be.Op == token.SUB) {
+			flat(be.X, neg)
+			flat(be.Y, neg != (be.Op == token.SUB))
+			return
+		}
+		switch {
+		case v.isField(e, "base"):
+			if !neg {
+				ok = false
+			}
+			nBase++
+		default:
+			if id, isID := e.(*ast.Ident); isID && !neg {
+				if q, has := s.offs[v.info.Uses[id]]; has {
+					p = q
+					nPos++
+					nBase++
+					return
+				}
+			}
+			if n, isInt := v.evalInt(s, e); isInt {
+				if neg {
+					k -= int(n)
+				} else {
+					k += int(n)
+				}
+				return
+			}
+			if tv, has := v.info.Types[e]; has && tv.Value != nil && tv.Value.Kind() == constant.Int {
+				if n, exact := constant.Int64Val(tv.Value); exact {
+					if neg {
+						k -= int(n)
+					} else {
+						k += int(n)
+					}
+					return
+				}
+			}
+			if cl, isCall := e.(*ast.CallExpr); isCall && len(cl.Args) == 1 && !neg {
+				if tv, has := v.info.Types[cl.Fun]; has && tv.IsType() {
+					if q, isPos := v.posVal(s, cl.Args[0]); isPos {
+						p = q
+						nPos++
+						return
+					}
+				}
+			}
+			ok = false
+		}
+	}
+	flat(x, false)
+	if !ok || nPos != 1 || nBase != 1 {
+		return lsPos{}, false
+	}
+	return lsPos{p.ep, p.off + k}, true
+}
+
+// noteStart: the value stored in the line table is append(<table>, offset); the line start it
+// records is compared with the end of the content restored last.
+func (v *lsEval) noteStart(s *lsState, r ast.Expr) {
+	cl, ok := ast.Unparen(r).(*ast.CallExpr)
+	if !ok || len(cl.Args) != 2 {
+		s.unkStart++
+		return
+	}
+	p, ok := v.offPos(s, cl.Args[1])
+	if !ok {
+		s.unkStart++
+		return
+	}
+	if p == s.cend {
+		s.atEnd++
+	}
+}
+
 // posDelta: a constant advance (token.Pos(k), k, token.Pos(len("lit"))).
 func (v *lsEval) posDelta(s *lsState, x ast.Expr) (int, bool) {
 	x = ast.Unparen(x)
@@ -781,8 +892,10 @@ func (v *lsEval) stmt(s *lsState, st ast.Stmt) {
 					} else if k, ok := v.posDelta(s, r); ok {
 						s.cur.off += k
 					} else {
+						// advanced by the length of something that was restored: it ends here
 						s.nextEp++
 						s.cur = lsPos{s.nextEp, 0}
+						s.cend = s.cur
 					}
 					s.sync()
 					if x.Tok == token.ADD_ASSIGN && v.env.dObj != nil && v.env.class != clsNL {
@@ -812,6 +925,7 @@ func (v *lsEval) stmt(s *lsState, st ast.Stmt) {
 					continue
 				}
 				s.breaks++
+				v.noteStart(s, r)
 			case v.isField(l, "comments"):
 				s.sinks = append(s.sinks, "file")
 			default:
@@ -858,6 +972,7 @@ func (v *lsEval) stmt(s *lsState, st ast.Stmt) {
 							if fid, ok := cl.Fun.(*ast.Ident); ok && fid.Name == "append" {
 								if aid, ok := ast.Unparen(cl.Args[0]).(*ast.Ident); ok && v.info.Uses[aid] == o {
 									s.breaks++
+									v.noteStart(s, r)
 									continue
 								}
 							}
@@ -886,6 +1001,11 @@ func (v *lsEval) stmt(s *lsState, st ast.Stmt) {
 						}
 						s.bools[o] = val
 					case b.Info()&types.IsInteger != 0 && !isTokenPos(o.Type()):
+						if p, isOff := v.offPos(s, r); isOff && (x.Tok == token.ASSIGN || x.Tok == token.DEFINE) {
+							s.offs[o] = p
+						} else {
+							delete(s.offs, o)
+						}
 						n, ok := v.evalInt(s, r)
 						if x.Tok == token.ADD_ASSIGN || x.Tok == token.SUB_ASSIGN {
 							cur, tracked := s.ints[o]
@@ -1294,7 +1414,7 @@ func (e *Env) lineStateApplyDecorations() {
 							steps++
 							env.class = cls
 							nx := cur.code.clone()
-							nx.breaks, nx.sinks, nx.cont, nx.advs, nx.inner = 0, nil, false, 0, 0
+							nx.breaks, nx.sinks, nx.cont, nx.advs, nx.inner, nx.atEnd, nx.unkStart = 0, nil, false, 0, 0, 0, 0
 							ev.stmts(nx, loop.Body.List)
 							if ev.undec != "" {
 								e.Run.Undecided("R-SPACE", key, pos, "in the loop: "+ev.undec)
@@ -1327,6 +1447,14 @@ func (e *Env) lineStateApplyDecorations() {
 							}
 							if gotSink != wantSink {
 								e.Run.Violation("R-SPACE", key, pos, fmt.Sprintf("%s; decorations %s: the last one goes to sink %q, the reference says %q (a comment goes to the node's Comment field only on the first line of an End decoration list of a node that has one, else to the file's comment list; exactly one sink)", envName, trace(child), gotSink, wantSink))
+								return
+							}
+							if cls == clsNL && nx.unkStart > 0 {
+								e.Run.Undecided("R-SPACE", key, pos, fmt.Sprintf("%s; decorations %s: the line start recorded for the \"\\n\" is not a sum over the cursor (int(<position>) - r.base ± constants)", envName, trace(child)))
+								return
+							}
+							if cls == clsNL && nx.atEnd > 0 {
+								e.Run.Violation("R-SPACE", "applyDecorations: a line-break decoration never starts the new line at the position where the restored content ends", pos, fmt.Sprintf("%s; decorations %s: the line break of the last one starts the new line at the very position where the content restored before it ends (the cursor has not moved since): End() of that node lies on the next line, and go/printer, which lays out lists by lineFor(x.End()), indents a multi-line return list twice and drops the trailing comma of a parameter list before a comment", envName, trace(child)))
 								return
 							}
 							wantAdv := 0
